@@ -474,3 +474,6 @@ func sameSlice(a, b []byte) bool { return false }
 //@   props C01 C06
 //@   ensures [f] result.Header.Fin == fin && result.Header.OpCode == op && result.Header.Rsv == 0 && !result.Header.Masked && result.Header.Length == int64(len(p)) && sameSlice(result.Payload, p)
 //@   assigns nothing
+
+// VSpecHeaderOK exports the header rule set for the contracts of package wsutil.
+func VSpecHeaderOK(h Header, s State) bool { return specHeaderOK(h, s) }
